@@ -41,18 +41,19 @@ import (
 // ---- signatures (root causes) ----
 
 const (
-	sigEmptyTx      = "empty-tx-nil-transaction-deref"       // S5
-	sigAdminSlice   = "adminop-run-slices-input-unchecked"   // S6
-	sigKVNonce      = "kv-tx-applied-without-nonce-check"    // S4
-	sigNonce        = "tx-applied-with-wrong-nonce"          // (iv)
-	sigNonceStep    = "nonce-not-raised-by-exactly-one"      // (iv)
-	sigPartition    = "tx-not-in-exactly-one-of-valid-invalid" // (iii)
-	sigAtomicity    = "apphash-changed-by-invalid-tx"        // (ii)
-	sigAtomicityRcp = "receiptshash-changed-by-invalid-tx"   // (ii), receipts side
+	sigEmptyTx      = "empty-tx-nil-transaction-deref"          // S5
+	sigAdminSlice   = "adminop-run-slices-input-unchecked"      // S6
+	sigGasPool      = "onexecute-panics@core.(*GasPool).AddGas" // value-carrying calls hand out unpaid gas
+	sigKVNonce      = "kv-tx-applied-without-nonce-check"       // S4
+	sigNonce        = "tx-applied-with-wrong-nonce"             // (iv)
+	sigNonceStep    = "nonce-not-raised-by-exactly-one"         // (iv)
+	sigPartition    = "tx-not-in-exactly-one-of-valid-invalid"  // (iii)
+	sigAtomicity    = "apphash-changed-by-invalid-tx"           // (ii)
+	sigAtomicityRcp = "receiptshash-changed-by-invalid-tx"      // (ii), receipts side
 	sigFlip         = "valid-tx-invalid-once-invalid-txs-removed"
 	sigUndecodable  = "undecodable-or-unsigned-tx-reported-valid"
-	sigNoReceipt    = "valid-tx-without-receipt"            // (v)
-	sigNoKVRecord   = "valid-kv-tx-without-record"          // (v)
+	sigNoReceipt    = "valid-tx-without-receipt"   // (v)
+	sigNoKVRecord   = "valid-kv-tx-without-record" // (v)
 	sigGhostReceipt = "invalid-tx-left-a-receipt"
 	sigGhostKV      = "invalid-kv-tx-left-a-record"
 	sigVerdictRace  = "verifier-publishes-status-before-data-race" // verifycpuparallel.go: oribys / err stored after the status
